@@ -402,7 +402,7 @@ class Model:
             e = j["error"]
             if not isinstance(e, dict):
                 return False
-            if not (isinstance(e.get("code"), int) and not isinstance(e.get("code"), bool)):
+            if not self.valid(e.get("code"), {"kind": "base", "name": "integer"}):
                 return False
             if not isinstance(e.get("message"), str):
                 return False
